@@ -29,7 +29,8 @@ HOSTILE = ["</script>", "</SCRIPT>", "</ScRiPt ", "</script\n", "<!--", "<\\/scr
            '"', "\\", "\n", "\r\n", "]]>", "\u00e9", "\U0001F600", "<script>", "&amp;", "&", "'",
            "</scr</script>ipt>", "\\</script>", "\u2028"]
 FIELDS = ["name", "source.href", "source.subdir", "script.src", "script.type", "stylesheet.href",
-          "stylesheet.title", "meta.name", "meta.content", "head.str", "head.script", "head.text"]
+          "stylesheet.title", "meta.name", "meta.content", "head.str", "head.script", "head.text",
+          "nosource.script.src", "nosource.stylesheet.href", "head.padded"]
 INDENTS = [None, 0, 2]
 PLACEHOLDER = "<meta name=\"deps-go-here\">"
 
@@ -59,6 +60,14 @@ def put(info, field, s):
         info["meta"] = [{"name": s, "content": "c"}]
     elif field == "meta.content":
         info["meta"] = [{"name": "m", "content": s}]
+    elif field == "nosource.script.src":
+        info["source"] = None
+        info["script"] = [{"src": "my file " + s + ".js"}]
+    elif field == "nosource.stylesheet.href":
+        info["source"] = None
+        info["stylesheet"] = [{"href": "a%b " + s + ".css"}]
+    elif field == "head.padded":
+        info["head"] = "\n  <i>" + s + "</i> \n"
     elif field == "head.str":
         info["head"] = (info["head"] or "") + "<i>" + s + "</i>"
     elif field == "head.script":
@@ -77,6 +86,10 @@ def make_info(puts):
 
 def serialise(info, indent):
     dep = build_dep(info)
+    # history: the dependency has been rendered / inspected before it is serialised
+    dep.as_dict()
+    str(dep)
+    dep.as_html_tags(lib_prefix=None)
     tag = dep.serialize_to_script_json(indent=indent)
     return dep, tag.get_html_string()
 
@@ -241,6 +254,9 @@ def fn_document(case):
 
 # ------------------------------------------------------------- JSON mode (iv)
 JSON_TREES = [
+    # dependencies that exist only in the expansion of a tagifiable object
+    ["E", "div", True, [], [["T", "a"], ["X", ["E", "p", True, [], [["T", "x"], ["D", "dx", "1.0", {"script": {"src": "x.js"}}]]]]]],
+    ["L", [["X", ["L", [["D", "dy", "2.0", {"head": "<b>y</b>"}], ["T", "t"]]]], ["D", "dz", "1", {}]]],
     ["E", "div", True, [], [["T", "a"], ["D", "d1", "1.0", {"script": {"src": "s.js"}, "source": {"subdir": "lib"}}]]],
     ["E", "div", True, [], [["D", "d1", "1.0", {"head": "<b></SCRIPT></b>"}],
                             ["E", "span", False, [], [["D", "d2", "2.0", {"meta": {"name": "n", "content": "</script>"}}]]],
